@@ -19,6 +19,7 @@ def parse_case_line(line):
     params = dict(kv.split("=") for kv in secs[0].split()[1:])
     if secs[0].startswith("status"): return mk_status(params["sched"], int(params["n"]))
     if secs[0].startswith("latch"): return mk_latch(int(params["M"]), int(params["n"]), int(params["tclose"]))
+    if secs[0].startswith("mexec"): return mk_mcase(params["chan"], int(params["k"]), int(params["L"]), int(params["tclose"]), [int(t.split(":")[1]) for t in secs[1].split()])
     items = [(int(t.split(":")[1]), t.split(":")[2] == "1") for t in secs[1].split()]
     return mk_case(params["kind"], params["chan"], int(params["L"]), int(params["tau"]), int(params["tclose"]), items, params.get("instr", "metrics"), int(params.get("R", 0)),
                    tpre=int(params.get("tpre", 0)), precancel=int(params.get("precancel", 0)))
@@ -56,6 +57,33 @@ def gen_reclose_case(rng):
         items = [(0, kind == "nf" and rng.random() < 0.3) for _ in range(n)]; tclose = rng.choice([0, 5])
     if rng.random() < 0.6: return mk_case(kind, chan, 1, 0, tclose, items, rng.choice(["metrics", "none"]), tpre=rng.choice([2, 7, 13, 27]))
     return mk_case(kind, chan, 1, 0, tclose, items, rng.choice(["metrics", "none"]), precancel=1)
+
+MKINDS = ("arc_atomic", "arc_full_sync", "arc_crossbeam", "ogre_arc_atomic", "ogre_arc_full_sync")
+def mk_mcase(chan, k, L, tclose, durs):
+    """a Multi with k listeners, each with a futures executor of concurrency limit L; listener i takes dur * (i + 1) ms per item (no model: oracle only)"""
+    line = "mexec chan=%s k=%d L=%d tclose=%d ; %s ; S" % (chan, k, L, tclose, " ".join("it:%d" % d for d in durs))
+    return Case(line, None, dict(profile="mexec", chan=chan, k=k, L=L, tclose=tclose, items=durs))
+
+def gen_mcase(rng):
+    return mk_mcase(rng.choice(MKINDS), rng.randint(1, 4), rng.choice([1, 1, 1, 2, 4]), rng.choice([0, 0, 5, 15, 25, 45, 105]),
+                    [rng.choice([0, 10, 10, 20, 30, 40]) for _ in range(rng.randint(0, 8))])
+
+def oracle_mexec(case, recs):
+    """C06 on a Multi: close(unbounded) answers true and returns only after EVERY listener processed every accepted event (limit 1;
+    with a limit above 1 the shortfall is the known finding F7); nothing is discarded; every executor's close callback runs once"""
+    hits = []; m = case.meta
+    rets = [x for x in recs if x[0] == "ret"]
+    head = {x[2]: (x[3], x[4]) for x in rets if x[2] in (80, 83)}
+    if 80 not in head: return [(None, "no result")]
+    closed, cbs = head[80]; accepted = head[83][0]
+    at_close = {x[3]: x[4] for x in rets if x[2] == 81}; total = {x[3]: x[4] for x in rets if x[2] == 82}
+    if not closed: hits.append((None, "Multi::close(unbounded) answered false"))
+    if cbs != m["k"]: hits.append((None, "%d close callbacks ran for %d executors" % (cbs, m["k"])))
+    for i in range(m["k"]):
+        if at_close.get(i, -1) < accepted:
+            hits.append((F7 if m["L"] > 1 else None, "Multi::close() returned when listener %d had fully processed only %d of the %d accepted events" % (i, at_close.get(i, -1), accepted)))
+        if total.get(i, -1) != accepted: hits.append((None, "closing discarded events: listener %d processed %d of %d in the end" % (i, total.get(i, -1), accepted)))
+    return hits[:1] if hits and hits[0][0] is None else hits[:1]
 
 SCHEDS = {"never": "[SStart; SFinish]", "before": "[SSched; SStart; SFinish]", "during": "[SStart; SSched; SFinish]", "endlog": "[SStart; SFinish; SSched]"}
 def mk_status(sched, n):
